@@ -38,7 +38,9 @@ fn kd9_fill_window_slide_keeps_deferred_match() {
     kani::assume(block_start >= 0 && block_start as usize <= strstart);
     state.block_start = block_start;
     let insert: usize = kani::any();
-    kani::assume(insert <= 2);
+    // bytes still to be inserted into the hash table: at most 2 at levels >= 1, up to a whole window after level 0
+    // (deflate_stored accumulates them for a later deflateParams)
+    kani::assume(insert <= W && insert <= strstart);
     state.insert = insert;
     // the deferred match found for the string that starts at strstart - 1
     let match_start: u16 = kani::any();
@@ -62,7 +64,8 @@ fn kd9_fill_window_slide_keeps_deferred_match() {
     let s = &stream.state;
     assert!(s.strstart == strstart - W && s.lookahead == lookahead, "positions move with the data");
     assert!(s.block_start == block_start - W as isize);
-    assert!(s.insert <= s.strstart);
+    assert!(s.insert <= s.strstart, "pending insertions never reach before the start of the window");
+    assert!(s.insert == Ord::min(insert, strstart - W));
     // the lower half now holds what the upper half held
     let j: usize = kani::any();
     kani::assume(j < W);
